@@ -90,3 +90,13 @@ def units():
             us.append(BVUnit(q, {q: strip_p(fb[FB(n) + "::" + t]), FB(n) + "::" + t: fb[FB(n) + "::" + t]}, P,
                              replace=[FB(n) + "::" + t], unwind=W + 2, tier=tier, canary=("< " + M(n) + ")", "< " + M(n) + " - 1)")))
     return us
+
+
+_units64 = units
+
+
+def units():
+    """+ the same contracts on the portable configuration with 32-bit words (C03): 384-bit and 256-bit instances of the quick tier"""
+    from units import w32_clone
+    us = _units64()
+    return us + [w32_clone(u) for u in us if u.tier == "quick" and getattr(u, "tu_variant", None) is None]
